@@ -170,6 +170,7 @@ func TestSim(t *testing.T) {
 		if v := res.first(*fProp); v != nil {
 			if pat := knownMatch(known, v.Sig()); pat != "" {
 				out.Known[pat]++
+				fmt.Printf("KNOWN-HIT property=%s seed=%d pattern=%s class=%s detail=%s\n", v.Prop, seed, pat, v.Class, v.Detail)
 				continue
 			}
 			out.Violation = v
